@@ -41,6 +41,14 @@ CHECKS = {
     technique='bounded symbolic execution of the real PDFFiller._create_fdf on a symbolic printable-ASCII value followed by a symbolic reference decoder of the PDF literal-string syntax (z3: decoded == value and the dictionary closes, on every path); the real PDFFiller.fill with stubbed pdftk on SMT-chosen subsets of the sections of a solved solution',
     text='The real _create_fdf writes a field whose value is a symbolic printable-ASCII string (<= 3 quick / 4 thorough characters) into a captured file; a reference decoder of PDF literal strings (balanced parentheses, backslash escapes, octal) runs symbolically over the captured text and z3 must show decode(fdf(v)) == v and that the entry closes right after it, for every such string. The real fill() then runs with a recording pdftk stub on every subset (SMT-enumerated) of the sections of a real solved solution per year: the fill_form commands must name exactly the fileable forms, once each, in (jurisdiction, sequence) order, never an input-only form or worksheet. Witness values are replayed through the real _create_fdf.',
     design='4 C19', note=TB + '; the reference decoder (PDF 32000-1 7.3.4.2) is the oracle; values longer than the bound and non-ASCII text outside'),
+ 'C14': dict(
+    technique='bounded symbolic execution of the real to_string/from_string pairs on symbolic values (exact digit-chain rendering, float()/int() grammar DFAs) with z3 deciding from_string(to_string(v)) == v per path; INI layer and year tag on solver-generated witness solutions through the real solve/write/fill path',
+    text='For every field class the real to_string and from_string run on a symbolic value of the line type: money on its 10^-places grid for places 0, 2, 5 with |x| < 1e8 (1e12 thorough) rendered digit by digit and parsed back by the float() DFA and the real round(); ints likewise; both bools; every enum member and None; printable text. z3 shows the value read back equals the value written on every path. The INI text layer (real configparser) and the [habutax] year tag are exercised on solver-generated solved returns through the real solve -> write -> filler re-read (witness level, stated as such).',
+    design='4 C14', note=TB + '; rendering of f-string .Nf as exact decimal with half-unit band; int()/str() applied through the DFA stubs; configparser text layer for arbitrary strings outside'),
+ 'C17': dict(
+    technique='symbolic execution of the real Form.threshold on a symbolic filing status per threshold table (z3: assertion unreachable, keys unambiguous); finite-domain catalogue facts from the real constructors and the real list-form-inputs command',
+    text='For every form instance of every year: instantiable for each allowed instance, declares the catalogue year, unique name, metadata present, input and line names duplicate-free / dot-free / lower-case, and the real list-form-inputs output parses back (configparser) naming exactly the declared inputs. Every status-keyed threshold table is looked up through the real Form.threshold with a symbolic status: no status reaches the assertion and no status matches two keys. (Q1: catalogue facts are finite-domain.)',
+    design='4 C17', note=TB),
  'C07': dict(
     technique='bounded symbolic execution of the real figure_tax on a symbolic real income (proxy objects through the real bytecode, z3 decides path feasibility) + per-path SMT equivalence with the statutory rate schedule',
     text='Every path of the real figure_tax/figure_tax_table/figure_tax_worksheet (one per table row and worksheet row, for each year and each of the 5 statuses) is enumerated by the symbolic executor; for each, z3 proves value(x) == schedule(x) for every real x on that path (unsat of the negation), that no feasible x falls through, and monotonicity across adjacent pieces. Holds for all real x in [0,1e12]; float rounding of the worksheet kernel is bounded by an NRA lemma under the IEEE standard model. Witnesses are replayed on the uninstrumented code before being reported.',
